@@ -47,6 +47,17 @@ InRing2(ring, p2) ==           \* p2 in doubled coordinates
 BoxMeets2(ring, c2, h2) ==     \* axis-parallel query box with centre c2 (doubled) and half sizes h2 (doubled)
     LET S == Range(ring) IN /\ c2[1] - h2[1] <= 2 * MaxC(S, 1) /\ 2 * MinC(S, 1) <= c2[1] + h2[1]
                             /\ c2[2] - h2[2] <= 2 * MaxC(S, 2) /\ 2 * MinC(S, 2) <= c2[2] + h2[2]
+(* strict versions: the point / box meets the interior (positive-area overlap).  Pure boundary contact is an      *)
+(* EITHER-band here: after a quarter turn the float coordinates carry ~1e-16 noise, so touching may go either way   *)
+(* (exact boundary semantics on unrotated lattices is the business of C06).                                         *)
+InRingStrict2(ring, p2) ==
+    LET S == Range(ring) IN /\ 2 * MinC(S, 1) < p2[1] /\ p2[1] < 2 * MaxC(S, 1)
+                            /\ 2 * MinC(S, 2) < p2[2] /\ p2[2] < 2 * MaxC(S, 2)
+BoxMeetsStrict2(ring, c2, h2) ==
+    LET S == Range(ring) IN /\ c2[1] - h2[1] < 2 * MaxC(S, 1) /\ 2 * MinC(S, 1) < c2[1] + h2[1]
+                            /\ c2[2] - h2[2] < 2 * MaxC(S, 2) /\ 2 * MinC(S, 2) < c2[2] + h2[2]
+MustByPos(net, p2)        == {i \in net.L : InRingStrict2(net.ring[i], p2)}
+MustByShape(net, c2, h2)  == {i \in net.L : BoxMeetsStrict2(net.ring[i], c2, h2)}
 FindByPos(net, p2)        == {i \in net.L : InRing2(net.ring[i], p2)}
 FindByShape(net, c2, h2)  == {i \in net.L : BoxMeets2(net.ring[i], c2, h2)}
 LightAt(lgt, t) == TL!StateAt(lgt.cyc, lgt.off, t)
